@@ -14,6 +14,7 @@ Not proved here, only exercised by the harness: `json.dumps` + compaction regex 
 -/
 import Paroxy.Proofs.MakeDbResolved
 import Paroxy.Spec.Filter
+import Paroxy.Proofs.Imported
 namespace Paroxy.Props.C11
 open Paroxy Paroxy.DB
 
@@ -446,5 +447,19 @@ example : ∃ db, makeDb (fun _ _ => [{ name := [120], spans := [(1, 1, [])] }])
   intro p _ t ht
   simp only [List.mem_singleton] at ht
   rw [ht]; simp
+
+/-- **The chain collect → recommend.** For every collection (distinct paths, a taxonomy whose taxa
+all have at least one span) the database `make_db` builds can be loaded by the filter:
+`add_imported_taxa` succeeds on it, keeps its programs, and yields a context satisfying `Ctx.WF` —
+the one hypothesis of the filter theorems C04–C07 and C17 — for EVERY regex oracle. So those theorems
+apply to every database that `collect` writes, not only to hand-made ones. -/
+theorem C11_feeds_filter (h : makeDb toTaxa progs = .ok db) (hn : (pathsOf progs).Nodup)
+    (hne : TaxaNonempty toTaxa progs) (orc : Paroxy.Filter.Oracle) :
+    ∃ ps, Paroxy.Filter.addImported (toFilterDB db) = some ps ∧
+      ps.map (·.1) = (toFilterDB db).programs.map (·.1) ∧
+      Paroxy.Filter.Ctx.WF { orc := orc, programs := ps, taxa := (toFilterDB db).taxa,
+                             exportations := (toFilterDB db).exportations } :=
+  let ⟨ps, h1, h2, h3, _⟩ := Paroxy.Filter.addImported_spec (toFilterDB db) (makeDb_filter_wf h hn hne) orc
+  ⟨ps, h1, h2, h3⟩
 
 end Paroxy.Props.C11
